@@ -17,6 +17,9 @@ let ty = ref ""
 let disc = ref 0
 let tainted = ref false
 let merges_seen = ref false
+(* the deliveries actually made in this case so far: all causal / all in per-actor order *)
+let all_causal = ref true
+let all_per_actor = ref true
 let hist : (int * sx * int list) list ref = ref []   (* author, op, deps -- newest first *)
 let pre : sx list ref = ref []
 let stats : (string, int) Hashtbl.t = Hashtbl.create 16
@@ -43,7 +46,7 @@ let expect prop what b = count prop; if not b then report prop (what ())
 let expect_all props what b = List.iter (fun p -> expect p what b) props
 
 let on_case (_id : string) (t : string) (line : string) =
-  ty := t; tainted := false; merges_seen := false; hist := []; pre := []; case_nontrivial := false; classes := [];
+  ty := t; tainted := false; merges_seen := false; all_causal := true; all_per_actor := true; hist := []; pre := []; case_nontrivial := false; classes := [];
   Hashtbl.reset know_of; last_vm := None;
   (match parse_sx line with
    | L [A "case"; _; _; A d] -> disc := int_of_string d
@@ -272,6 +275,24 @@ let ctx_call pre_ fn a =
                 report "C07" (Printf.sprintf "%s hands out add_clock %s but the replica clock is %s" fn (show_vc add) (show_vc clock))
           | [] -> ())
        with Bad _ -> ()) in
+  (* C07 for Orswot: the remove context of a member is exactly the clock of the member's
+     surviving witnesses, as the specification of the replica's knowledge defines them *)
+  (if pre_ = "orswot" && !ty = "orswot" then
+     (try
+        let know = (try Hashtbl.find know_of !cur_rep with Not_found -> []) in
+        let spec = lazy (ospec (history_of oop_sx) (kset know)) in
+        let witness m = (match List.assoc_opt (int_of_n m) (List.map (fun (k, c) -> (int_of_n k, c)) (nmap_to_list (Lazy.force spec).oentries)) with
+                         | Some c -> c | None -> vc_of_list []) in
+        let one m r =
+          let rm = vc_sx (field "rm_clock" r) in
+          count "C07";
+          if not (vc_eqb rm (witness m)) then
+            report "C07" (Printf.sprintf "%s: remove context %s of member %s is not the clock of its surviving witnesses %s" fn (show_vc rm) (show_n m) (show_vc (witness m))) in
+        (match fn, a with
+         | "contains", [_; m; r] -> one (n_sx m) r
+         | "iter", [_; L (A "L" :: rs)] -> List.iter (fun r -> one (n_sx (field "val" r)) r) rs
+         | _ -> ())
+      with Bad _ -> ()));
   (match fn, a with
    | ("read" | "read_ctx"), [_; r] when pre_ = "mvreg" && !ty = "mvreg" ->
        check_ctx r;
@@ -357,8 +378,7 @@ let spec_check (know : int list) (s : sx) =
 
 let canon_props () =
   (if !merges_seen then ["C03"]
-   else if !disc = 0 then ["C01"]
-   else ["C08"])
+   else (if !all_causal then ["C01"] else []) @ (if !all_per_actor && (!disc <> 0 || not !all_causal) then ["C08"] else []))
   @ (if is_map !ty then ["C05"] else [])
 
 let on_event (case : string) (cmd : string) (x : sx) =
@@ -373,7 +393,17 @@ let on_event (case : string) (cmd : string) (x : sx) =
         stat "edits";
         classes := List.filter (fun (f, _) -> f <> "T2" || !merges_seen)
                      (Known.classify !ty (List.rev_map (fun (_, o, _) -> o) !hist))
-    | L [A "ev"; A "deliver"; _; _] -> stat "deliveries"; case_nontrivial := true
+    | L [A "ev"; A "deliver"; A r; A i] ->
+        stat "deliveries"; case_nontrivial := true;
+        (* was this delivery causal / in per-actor order, given what the replica knew before? *)
+        let know = (try Hashtbl.find know_of r with Not_found -> []) in
+        let h = Array.of_list (List.rev !hist) in
+        let i = int_of_string i in
+        if i < Array.length h then begin
+          let (author, _, deps) = h.(i) in
+          if not (List.for_all (fun d -> List.mem d know) deps) then all_causal := false;
+          Array.iteri (fun j (a', _, _) -> if j < i && a' = author && not (List.mem j know) then all_per_actor := false) h
+        end
     | L [A "ev"; A "merge"; _; _] ->
         stat "merges"; merges_seen := true; case_nontrivial := true;
         classes := Known.classify !ty (List.rev_map (fun (_, o, _) -> o) !hist)
